@@ -41,7 +41,13 @@ func init() {
 	regSafety("C01", mkC01, shC01)
 	regSafety("C02", mkC02, shC02)
 	regSafety("C03", mkC03, shC03)
+	replayers["C03"] = append(replayers["C03"], func(vals []int, keepLog bool) *sim.World {
+		return RunNestedRecovery(&ReplaySrc{Vals: vals}, mkC03(), keepLog)
+	})
 	regSafety("C04", mkC04, shC04)
+	replayers["C04"] = append(replayers["C04"], func(vals []int, keepLog bool) *sim.World {
+		return RunNestedRecovery(&ReplaySrc{Vals: vals}, mkC04(), keepLog)
+	})
 	regSafety("C10", mkC10, shC10)
 	replayers["C10"] = append(replayers["C10"], func(vals []int, keepLog bool) *sim.World {
 		return RunViewStorm(&ReplaySrc{Vals: vals}, mkC10(), keepLog)
@@ -73,18 +79,50 @@ func TestC02(t *testing.T) {
 }
 
 func TestC03(t *testing.T) {
-	runProp(t, "C03", func(e *Env) func(*rapid.T) {
-		return SafetyProp(e, mkC03, shC03, func(w *sim.World) bool {
-			return w.Stats["c03_pressure_after_lock"] > 0
+	SkipUnlessSelected(t, "C03")
+	e := GetEnv("C03")
+	defer e.Flush()
+	rapid.Check(t, SafetyProp(e, mkC03, shC03, func(w *sim.World) bool {
+		return w.Stats["c03_pressure_after_lock"] > 0
+	}))
+	if t.Failed() {
+		return
+	}
+	// recovery messages full of change views processed while future-view traffic is cached
+	rapid.Check(t, func(t *rapid.T) {
+		src := &RapidSrc{T: t}
+		w := RunNestedRecovery(src, mkC03(), false)
+		fatal := e.Report(w, src.Rec, func() string {
+			return RunNestedRecovery(&ReplaySrc{Vals: src.Rec}, mkC03(), true).Render()
 		})
+		e.Case(FPInts(src.Rec), w.Stats["nested_recovery_locked"] > 0 && w.Stats["nested_recovery_view_changed"] > 0, w.Stats, func() any { return sampleOf(w, src.Rec) })
+		if fatal != "" {
+			t.Fatalf("%s", fatal)
+		}
 	})
 }
 
 func TestC04(t *testing.T) {
-	runProp(t, "C04", func(e *Env) func(*rapid.T) {
-		return SafetyProp(e, mkC04, shC04, func(w *sim.World) bool {
-			return (w.Stats["c04_commit_checked"] > 0 || w.Stats["c04_viewchange_checked"] > 0) && (w.Stats["early_delivery"] > 0 || w.Stats["c04_commit_with_mismatching_prep_present"] > 0)
+	SkipUnlessSelected(t, "C04")
+	e := GetEnv("C04")
+	defer e.Flush()
+	rapid.Check(t, SafetyProp(e, mkC04, shC04, func(w *sim.World) bool {
+		return (w.Stats["c04_commit_checked"] > 0 || w.Stats["c04_viewchange_checked"] > 0) && (w.Stats["early_delivery"] > 0 || w.Stats["c04_commit_with_mismatching_prep_present"] > 0)
+	}))
+	if t.Failed() {
+		return
+	}
+	// recovery messages full of change views processed while future-view traffic is cached
+	rapid.Check(t, func(t *rapid.T) {
+		src := &RapidSrc{T: t}
+		w := RunNestedRecovery(src, mkC04(), false)
+		fatal := e.Report(w, src.Rec, func() string {
+			return RunNestedRecovery(&ReplaySrc{Vals: src.Rec}, mkC04(), true).Render()
 		})
+		e.Case(FPInts(src.Rec), w.Stats["nested_recovery_view_changed"] > 0 && w.Stats["c04_viewchange_checked"] > 0, w.Stats, func() any { return sampleOf(w, src.Rec) })
+		if fatal != "" {
+			t.Fatalf("%s", fatal)
+		}
 	})
 }
 
